@@ -187,7 +187,8 @@ func (w *When) Matches(argAndRet ...arg.Pair) *When {
 			results = []interface{}{v.Return}
 		}
 
-		w.Return(results...)
+		// the pair's results belong to its own matcher only (adding them to the current
+		// condition or to the default turned those into sequences)
 		matcher := newDefaultMatch(args, results, w.isMethod, w.funcTyp)
 		w.matches = append(w.matches, matcher)
 	}
